@@ -197,8 +197,7 @@ func (h *Session) Parse(p []byte) (frame Frame, err error) {
 		// If we don't have this, then we received all sent and forwarded packets with client IPs containing our host mac
 		if !bytes.Equal(frame.SrcAddr.MAC, h.NICInfo.HostAddr4.MAC) && frame.Session.NICInfo.HomeLAN4.Contains(frame.SrcAddr.IP) {
 			frame.Host, _ = frame.Session.findOrCreateHostWithLock(frame.SrcAddr) // will lock/unlock
-			if !frame.Host.Online {
-				frame.Session.onlineTransition(frame.Host)
+			if frame.Session.hostOnline(frame.Host) {
 				frame.flags = frame.markOnlineTransition()
 			}
 		}
@@ -230,8 +229,7 @@ func (h *Session) Parse(p []byte) (frame Frame, err error) {
 			(frame.SrcAddr.IP.IsLinkLocalUnicast() ||
 				(frame.SrcAddr.IP.IsGlobalUnicast() && !bytes.Equal(frame.SrcAddr.MAC, frame.Session.NICInfo.RouterAddr4.MAC))) {
 			frame.Host, _ = frame.Session.findOrCreateHostWithLock(frame.SrcAddr) // will lock/unlock
-			if !frame.Host.Online {
-				frame.Session.onlineTransition(frame.Host)
+			if frame.Session.hostOnline(frame.Host) {
 				frame.flags = frame.markOnlineTransition()
 			}
 		}
@@ -254,8 +252,7 @@ func (h *Session) Parse(p []byte) (frame Frame, err error) {
 			frame.Session.NICInfo.HomeLAN4.Contains(srcIP) {
 			addr := Addr{MAC: net.HardwareAddr(arp[8:14]), IP: srcIP}    // use arp src mac and ip for lookup
 			frame.Host, _ = frame.Session.findOrCreateHostWithLock(addr) // will lock/unlock
-			if !frame.Host.Online {
-				frame.Session.onlineTransition(frame.Host)
+			if frame.Session.hostOnline(frame.Host) {
 				frame.flags = frame.markOnlineTransition()
 			}
 		}
@@ -417,6 +414,18 @@ func (h *Session) Parse(p []byte) (frame Frame, err error) {
 		return frame, nil
 	}
 	return frame, nil
+}
+
+// hostOnline runs the online transition of the host of a received packet under its row lock
+// (Online, dirty and the MAC entry are read by purge, notify and makeOffline under that lock).
+func (h *Session) hostOnline(host *Host) (transition bool) {
+	host.MACEntry.Row.Lock()
+	if !host.Online {
+		h.onlineTransition(host)
+		transition = true
+	}
+	host.MACEntry.Row.Unlock()
+	return transition
 }
 
 func (h *Session) onlineTransition(host *Host) {
